@@ -685,7 +685,9 @@ Section Complete.
       rewrite Hp, orb_true_r. apply IH. exact Hall.
     - (* FAnyOf *)
       assert (Hsel : exists g w, In g fs /\ docb re_match e g nf = Some w /\ ser ei re_match e ss g nf = Some j).
-      { cbn [ser] in Hs. destruct nf; try discriminate Hs; apply first_sel in Hs; exact Hs. }
+      { cbn [ser] in Hs. destruct nf; try discriminate Hs;
+          try (apply first_sel in Hs; exact Hs).
+        destruct (eo_mixin (ei cls)); try discriminate Hs; apply first_sel in Hs; exact Hs. }
       destruct Hsel as (g & w & Hin & Hdg & Hsg).
       assert (Hnn : nf <> PNone).
       { intro E. subst nf. cbn [ser] in Hs. discriminate Hs. }
